@@ -32,7 +32,7 @@ func genC15(t *rapid.T) *c15Case {
 	if rapid.Bool().Draw(t, "lossless") {
 		c.Opts = gen.DrawLosslessOpts(t)
 	} else {
-		c.Opts = gen.DrawLossyOpts(t, false)
+		c.Opts = gen.DrawLossyOpts(t, true) // incl. TargetSize/TargetPSNR: the budget must not depend on metadata
 	}
 	maxLen := 300
 	if rapid.IntRange(0, 19).Draw(t, "bigBlob") == 0 {
